@@ -1419,6 +1419,178 @@ def case_projective_reps(case):
     return {"v": v[:6], "t": t, "o": "%d/%s/%s/" % (chart, tf, aa) + ";".join(sorted(summ)), "nt": t > 0}
 
 
+def _open_corners(vs, cs, tol):
+    """Corners of a closed straight path (closing vertex and repeated corners dropped); None if it is not one
+    MOVETO followed by straight pieces."""
+    pcs = svgpath.pieces(vs, cs)
+    if not pcs or pcs[0].kind != "M" or sum(p.kind == "M" for p in pcs) != 1 or any(p.kind not in ("M", "L", "Z") for p in pcs):
+        return None
+    corners = [pcs[0].end]
+    for p in pcs[1:]:
+        if np.linalg.norm(p.end - corners[-1]) > tol:
+            corners.append(p.end)
+    if len(corners) > 1 and np.linalg.norm(corners[-1] - corners[0]) <= tol:
+        corners.pop()
+    return corners
+
+
+def crossing_piece_violations(W, run, before, after, box, tol):
+    """One of the two pieces of a polygon that crosses the chart's line at infinity.  W: corners drawn (open list);
+    run: chart coordinates of the consecutive vertices (in the polygon's order) on one side of the line at infinity;
+    before / after: chart coordinates of the polygon's vertex preceding / following the run (on the other side).
+    Demanded: cyclically, in one of the two directions, W = run followed by >= 2 further corners, all outside the view
+    box; the corner next to the run's last vertex lies on the ray leaving that vertex away from `after` (the projective
+    edge run[-1] -> after passes through infinity, so in the chart it is that ray and the opposite ray at `after`),
+    and the corner next to the run's first vertex lies on the ray leaving it away from `before`.
+    Returns a list of short reasons (empty = the piece is this run)."""
+    m, n = len(run), len(W)
+    if n < m + 2:
+        return ["%d corners for a run of %d vertices (+ at least 2 beyond the view)" % (n, m)]
+    W = [np.asarray(w, dtype=float) for w in W]
+    best = None
+    for cand in (W, W[::-1]):
+        for s in range(n):
+            R = cand[s:] + cand[:s]
+            if all(np.linalg.norm(R[i] - run[i]) <= tol for i in range(m)):
+                why = []
+                extra = R[m:]
+                (x0, x1), (y0, y1) = box
+                if any(x0 <= e[0] <= x1 and y0 <= e[1] <= y1 for e in extra):
+                    why.append("an added corner %s lies inside the view" % fmt(extra))
+                for D, A, B, nm in ((extra[0], run[-1], after, "last"), (extra[-1], run[0], before, "first")):
+                    u, w = D - A, A - B
+                    cr = abs(u[0] * w[1] - u[1] * w[0])
+                    if not (float(np.dot(u, w)) > 0.0 and cr <= 1e-6 * np.linalg.norm(u) * np.linalg.norm(w)):
+                        why.append("the corner %s next to the run's %s vertex %s is not on the ray from it away from %s" % (fmt(D), nm, fmt(A), fmt(B)))
+                if not why:
+                    return []
+                best = why
+    return best or ["the run %s is not a block of consecutive corners of %s" % (fmt(run), fmt(W))]
+
+
+def case_projective_crossing(case):
+    """ProjectiveDrawing.draw_polygon(assume_affine=False) on polygons that cross the chart's line at infinity: the
+    chart coordinate (after the drawing transform) is non-zero at every vertex and changes sign exactly twice around
+    the polygon, so the vertices form two runs.  Demanded: every such member is drawn as two closed straight patches,
+    one per run (crossing_piece_violations); members inside the chart go to the collection as they are."""
+    from geometry_tools import projective
+    chart, tf = case["chart"], case["tf"]
+    site = "projective/polygon/nonaffine-crossing"
+    v, t, summ = [], 0, set()
+    try:
+        d = new_proj_drawing(chart, tf)
+        box = (tuple(float(x) for x in d.xlim), tuple(float(y) for y in d.ylim))
+        for item in case["items"]:
+            X = np.array(item, dtype=float)
+            polys = X.reshape((-1,) + X.shape[-2:])
+            k = polys.shape[1]
+            post = [ptransformed(tf, P) for P in polys]
+            members = []
+            for Y in post:
+                sg = np.sign(Y[:, chart])
+                changes = [i for i in range(k) if sg[i] != sg[i - 1]]
+                members.append(None if not changes else changes)
+            if any(ch is not None and len(ch) != 2 for ch in members) or any(np.any(Y[:, chart] == 0.0) for Y in post):
+                summ.add("undemanded")
+                continue
+            before = all_artists()
+            d.draw_polygon(projective.Polygon(X), assume_affine=False)
+            t += 1
+            new = new_artists(before)
+            vv = []
+            if any(ax is not d.ax for _, ax in new):
+                vv.append(V("artist/%s/not-on-drawing-axes" % site, "a new artist appeared on axes other than drawing.ax"))
+            paths = []
+            for a, ax in new:
+                if hasattr(a, "get_paths"):
+                    off = np.asarray(a.get_offsets(), dtype=float)
+                    if off.size and float(np.max(np.abs(off))) != 0.0:
+                        vv.append(V(site + "/offsets", "collection offsets %s" % fmt(off)))
+                    paths += [("coll",) + tuple(data_path(a, ax, p)) for p in a.get_paths()]
+                elif hasattr(a, "get_path"):
+                    paths.append(("patch",) + tuple(data_path(a, ax)))
+                else:
+                    vv.append(V(site + "/artist-type", "unexpected artist %s" % type(a).__name__))
+            ncross = sum(ch is not None for ch in members)
+            nin = len(members) - ncross
+            got = (sum(p[0] == "coll" for p in paths), sum(p[0] == "patch" for p in paths))
+            if got != (nin, 2 * ncross):
+                vv.append(V(site + "/shape-count/%d-vertices" % k, "%d members inside the chart and %d crossing its line at infinity: "
+                            "%d collection paths and %d patches drawn (expected %d and %d)" % (nin, ncross, got[0], got[1], nin, 2 * ncross)))
+            else:
+                used = set()
+                for mi, (Y, ch) in enumerate(zip(post, members)):
+                    A = dg.affine_chart(Y, chart)
+                    tol = tol_pt(A)
+                    if ch is None:
+                        hit = [j for j, p in enumerate(paths) if j not in used and p[0] == "coll" and not polyline_check(A, p[1], p[2], site, tol)]
+                        if not hit:
+                            vv.append(V(site + "/inside-member/vertices", "member %d (inside the chart, corners %s) is none of the collection's paths" % (mi, fmt(A))))
+                        else:
+                            used.add(hit[0])
+                        continue
+                    a, b = ch
+                    for lo, hi in ((a, b), (b, a + k)):
+                        idx = [i % k for i in range(lo, hi)]
+                        run = [A[i] for i in idx]
+                        why, hit = None, None
+                        for j, p in enumerate(paths):
+                            if j in used or p[0] != "patch":
+                                continue
+                            try:
+                                W = _open_corners(p[1], p[2], tol)
+                            except svgpath.PathError as e:
+                                W = None
+                            r = ["not a closed straight path"] if W is None else crossing_piece_violations(W, run, A[(lo - 1) % k], A[hi % k], box, tol)
+                            if not r:
+                                hit = j
+                                break
+                            if why is None or len(r) < len(why) or "not a block" in why[0]:
+                                why = r
+                        if hit is None:
+                            vv.append(V(site + "/piece/%d-vertices" % k, "member %d: chart coordinates %s, signs of the chart coordinate %s; no patch is the piece "
+                                        "with the vertices %s: %s; patches drawn: %s" % (mi, fmt(A), [int(x) for x in np.sign(Y[:, chart])], idx,
+                                                                                       "; ".join(why or ["no patch left"]), " | ".join(fmt(p[1]) for p in paths if p[0] == "patch"))))
+                            break
+                        used.add(hit)
+            for x in vv:
+                x["msg"] = "projective polygon(s) %s, chart %d, transform %s, assume_affine=False: %s" % (fmt(X), chart, tf, x["msg"])
+            v += vv
+            summ.add("%d:%d+%d" % (k, nin, ncross))
+    finally:
+        close_all()
+    return {"v": v[:6], "t": t, "o": "%d/%s/" % (chart, tf) + ";".join(sorted(summ)), "nt": t > 0}
+
+
+def crossing_items(tf, chart, ok, starts):
+    """Polygons with 3..6 vertices crossing the chart's line at infinity: windows ok[i:i+k] (cyclic) of the lattice,
+    the representative inside the chart with the sign of a run of m consecutive vertices (every start, every
+    1 <= m <= k-1) flipped, times an overall factor 1 / -1 (alternating with the pattern index, both for the first
+    start); plus collections [crossing, inside, crossing] with different runs."""
+    items = []
+    n = len(ok)
+    for k in (3, 4, 5, 6):
+        reps = []
+        for i in starts:
+            B = chart_rep(tf, chart, [ok[(i + j) % n] for j in range(k)])
+            reps.append(B)
+            c = 0
+            for s in range(k):
+                for m in range(1, k):
+                    mus = [-1.0 if (j - s) % k < m else 1.0 for j in range(k)]
+                    for lam in ((1.0, -1.0) if i == starts[0] else ((1.0, -1.0)[c % 2],)):
+                        items.append(scaled(B, lam, mus))
+                    c += 1
+        if len(reps) >= 3:
+            for s in range(k):
+                m1, m2 = 1 + s % (k - 1), 1 + (s + 1) % (k - 1)
+                mu1 = [-1.0 if (j - s) % k < m1 else 1.0 for j in range(k)]
+                mu2 = [-1.0 if (j - s - 2) % k < m2 else 1.0 for j in range(k)]
+                items.append([scaled(reps[0], 1.0, mu1), scaled(reps[1], -2.5), scaled(reps[2], 0.3, mu2)])
+                items.append([scaled(reps[2], -1.0, mu2), scaled(reps[0], 1.0, mu1)])
+    return items
+
+
 # ------------------------------------------------------------------------------------------
 # wrong dimension
 # ------------------------------------------------------------------------------------------
@@ -2291,6 +2463,25 @@ def run(ctx):
                          "scales": "per polygon LAMBDAS %s; per vertex uniform / |LAMBDAS| rotated / (assume_affine=True) LAMBDAS rotated" % lattice.LAMBDAS,
                          "collections": "ordered pairs of 3 triangles x LAMBDAS^2; the 3 triangles in 3 cyclic orders x signs {+,-}^3 x moduli (1, 2.5, 0.3); "
                                         "two triangles inside the chart (signs {+,-}^2) + one leaving it, listed first / in the middle / last"}, chunk=2)
+
+    # projective polygons crossing the chart's line at infinity, assume_affine=False: 3..6 vertices, every chart
+    cc = []
+    for chart in (0, 1, 2):
+        for tf in PTFS:
+            ok = [x for x in PL if proj_ok(tf, x)]
+            items = crossing_items(tf, chart, ok, [0, 1, 2] if q else list(range(len(ok))))
+            for s in range(0, len(items), 60):
+                cc.append({"chart": chart, "tf": tf, "items": items[s:s + 60]})
+    ctx.assume("assume_affine=False, polygons leaving the chart: the chart coordinate (after the drawing transform) is non-zero at every vertex "
+               "and changes sign exactly twice around the polygon (two runs of vertices); such a polygon is demanded to be drawn as two closed "
+               "straight patches, one per run: the run's vertices at their chart coordinates, in order, closed through >= 2 corners outside the "
+               "drawing's view (xlim x ylim) of which the two next to the run lie on the rays that continue the two crossing edges away from the "
+               "vertices on the other side; polygons with more sign changes are not demanded")
+    product("projective-nonaffine-crossing", "checks.c19:case_projective_crossing", cc,
+            domains={"charts": [0, 1, 2], "transforms": list(PTFS), "vertex counts": [3, 4, 5, 6],
+                     "polygons": "cyclic windows of the lattice starting at %s" % ("0, 1, 2" if q else "every point"),
+                     "sign patterns": "every run (start, length 1..k-1) of flipped representatives, overall factor 1 / -1",
+                     "collections": "[crossing, inside the chart, crossing] and [crossing, crossing] with different runs, per vertex count and start"}, chunk=2)
 
     # transform histories: the drawing's transform reached through constructor / set_ / add_ / precompose_transform
     depth = 2 if q else 3
